@@ -70,8 +70,9 @@ func (c *sorterClass_[V]) DefaultRanker() RankingFunction[V] {
 // Constructors
 
 func (c *sorterClass_[V]) Make() SorterLike[V] {
+	// Each sorter gets a collator of its own since a collator tracks its depth.
 	return &sorter_[V]{
-		ranker_: c.defaultRanker_,
+		ranker_: Collator[V]().Make().RankValues,
 	}
 }
 
